@@ -222,6 +222,48 @@ class Probes:
         cls.counters[name] = cls.counters.get(name, 0) + n
 
 
+class Forget:
+    """Causal test used to attribute a violation to finding D3 (DESIGN.md 3.9): when armed for
+    program `pid`, every subroutine declaration that gets evaluated and cached DURING one of
+    that program's compile/probe calls is dropped again when the call ends, so each compile
+    starts from exactly what the build steps left behind.  If a deviation from the
+    fresh-process reference disappears under this patch, it was caused by declarations cached
+    by the program's own earlier compile/probe calls and by nothing else."""
+
+    pid = None
+    active: list | None = None
+    dropped = 0
+
+    @classmethod
+    def install(cls, pid):
+        from pyteal.ast.subroutine import _SubroutineDeclByOption
+
+        cls.pid = pid
+        orig = _SubroutineDeclByOption.get_declaration_by_option
+
+        def recording(self, fp_option=True):
+            pre = self.option_map[fp_option] is not None
+            d = orig(self, fp_option)
+            if not pre and cls.active is not None:
+                cls.active.append((self, fp_option))
+            return d
+
+        _SubroutineDeclByOption.get_declaration_by_option = recording
+
+    @classmethod
+    def begin(cls, op):
+        if cls.pid is not None and op.get("p") == cls.pid and op["op"] in ("compile", "probe"):
+            cls.active = []
+
+    @classmethod
+    def end(cls):
+        if cls.active is not None:
+            for decls, fp_option in cls.active:
+                decls.option_map[fp_option] = None
+                cls.dropped += 1
+            cls.active = None
+
+
 def _install_probes():
     orig_assign = _slots_mod.assignScratchSlotsToSubroutines
 
@@ -416,6 +458,14 @@ class World:
         pre_counters = dict(Probes.counters)
         if self.base_depth is None:
             self.base_depth = _depth()
+        Forget.begin(op)
+        try:
+            out = self._step_inner(op, fault)
+        finally:
+            Forget.end()
+        self._record(idx, op, out)
+
+    def _step_inner(self, op, fault):
         if op.get("p") in self.retired and op["op"] != "build":
             out = ("skip", "retired")
         elif fault and fault["kind"] == "abort":
@@ -460,7 +510,9 @@ class World:
                     self.fired("native_failure")
                 else:
                     self.fired("other_exception:" + out[1])
+        return out
 
+    def _record(self, idx, op, out):
         ev = {"i": idx, "op": op["op"], "p": op.get("p"), "res": out[0]}
         if out[0] == "ok" and op["op"] == "compile":
             ev["d"] = [sha(out[1]), sha(out[2])]
@@ -543,7 +595,11 @@ def run_history(job: dict) -> dict:
     if job.get("idhash_seed") is not None:
         IdHash.install(job["idhash_seed"])
     _install_probes()
-    return World(job).run()
+    if job.get("forget_decls_for") is not None:
+        Forget.install(job["forget_decls_for"])
+    res = World(job).run()
+    res["decls_dropped"] = Forget.dropped
+    return res
 
 
 def run_reference(job: dict) -> dict:
